@@ -47,7 +47,7 @@ ANCHORS = ['pfhedge.nn.functional:d1',
            'pfhedge.nn.modules.hedger:Hedger.compute_hedge']
 PYTEST_WORKLOAD = True  # thorough tier also runs /repo/tests with these passive monitors attached (DESIGN.md 2.7)
 DECIDING = ["nan_watch", "limit.price", "limit.delta", "reject.negative", "hedger.finite"]
-REQUIRED_BRANCHES = ["t=0", "sigma=0", "both=0", "tiny", "at_strike", "hedger.bs", "hedger.ww"]
+REQUIRED_BRANCHES = ["hedger.zero_volatility_underlier", "reject.other_argument_all_zero", "t=0", "sigma=0", "both=0", "tiny", "at_strike", "hedger.bs", "hedger.ww"]
 
 _CTX = None
 PRICE_DELTA = ["bs_european_price", "bs_european_delta", "bs_european_binary_price", "bs_european_binary_delta",
@@ -231,6 +231,13 @@ def drv_reject(ctx, k, rng):
     which = pick(rng, ["t", "v"])
     bad = float(pick(rng, [-1e-300, -1e-12, -0.1, -5.0])) if dtype == F64 else float(pick(rng, [-1e-30, -1e-6, -0.1, -5.0]))
     j = int(rng.integers(n))
+    if rng.random() < 0.4:
+        # the *other* argument sits on the boundary everywhere (expired options / zero volatility): validation must not be skipped there
+        if which == "t":
+            v = torch.zeros_like(v)
+        else:
+            tt = torch.zeros_like(tt)
+        ctx.branch("reject.other_argument_all_zero")
     if which == "t":
         tt[j] = bad
     else:
@@ -264,7 +271,12 @@ def drv_hedger(ctx, k, rng):
     dtype = pick(rng, [None, F64])
     sk = pick(rng, ["brownian", "brownian", "heston", "heston_low", "merton", "kou"])
     cost = float(pick(rng, [0.0, 1e-4, 1e-3]))
-    if sk == "heston_low":
+    if sk == "brownian_zero_vol":
+        # a deterministic underlier: the price never leaves its initial value (exactly at the money for strike 1)
+        stock = BrownianStock(sigma=0.0, cost=cost, dtype=dtype)
+        stock._pfv_kind = sk
+        ctx.branch("hedger.zero_volatility_underlier")
+    elif sk == "heston_low":
         stock = HestonStock(kappa=float(rng.uniform(0.2, 1)), theta=float(rng.uniform(0.002, 0.02)), sigma=float(rng.uniform(0.5, 1.5)),
                             rho=float(rng.uniform(-0.9, 0)), cost=cost, dtype=dtype)
         stock._pfv_kind = sk
@@ -305,6 +317,43 @@ def drv_hedger(ctx, k, rng):
         ctx.sample({"driver": "hedger", "model": which, "derivative": kind, "stock": sk, "hedge_row0": hedge[0, 0, :5], "pl_head": pl[:3]})
 
 
+def drv_zero_vol(ctx, k, rng):
+    """Deterministic underlier (sigma = 0): every option type x hedger x cost x strike (at / in / out of the money), enumerated."""
+    kinds = ["european", "european_binary", "american_binary", "lookback"]
+    kind = kinds[k % 4]
+    cls = {"european": EuropeanOption, "lookback": LookbackOption, "american_binary": AmericanBinaryOption, "european_binary": EuropeanBinaryOption}[kind]
+    dtype = [None, F64][(k // 4) % 2]
+    for which in ("bs", "ww"):
+        for cost in (0.0, 1e-3):
+            for K in (1.0, 0.95, 1.05):
+                if kind == "european_binary" and K == 1.0:
+                    continue  # exactly at the strike with zero volatility the binary delta is a Dirac mass (+inf admitted by the property)
+                for call in ((True,) if kind in ("american_binary", "lookback") else (True, False)):
+                    stock = BrownianStock(sigma=0.0, cost=cost, dtype=dtype)
+                    d = cls(stock, call=call, strike=K, maturity=3 / 250)
+                    model = BlackScholes(d) if which == "bs" else WhalleyWilmott(d)
+                    hedger = Hedger(model, model.inputs())
+                    if dtype is not None:
+                        hedger.to(dtype)
+                    d.simulate(n_paths=2)
+                    with torch.no_grad():
+                        hedge = hedger.compute_hedge(d)
+                        pl = hedger.compute_pl(d)
+                    mon = "hedger.finite"
+                    ctx.seen(mon)
+                    ok = bool(torch.isfinite(hedge).all() and torch.isfinite(pl).all())
+                    key = "hedger.finite"
+                    if not ok and kind == "lookback":
+                        key = "lookback_delta.nan_at_zero_maturity_or_volatility" if which == "bs" else "ww.gamma_nan_at_zero_volatility"
+                    elif not ok and which == "ww" and kind != "european":
+                        key = "ww.gamma_nan_at_zero_volatility"
+                    elif not ok and which == "ww" and kind == "european" and cost == 0.0 and K == 1.0:
+                        key = "ww.zero_cost_times_infinite_gamma"  # width = (0 * inf)^(1/3) exactly at the money with zero volatility
+                    ctx.check(mon, ok, key, f"{which} hedger of a {kind} option (call={call}, strike={K}) on a zero-volatility stock (cost={cost}): non-finite hedge/P&L "
+                              f"{hedge[0, 0].tolist()}", sig=(which, kind, "zero_vol", K, cost > 0, str(dtype), call))
+    ctx.branch("hedger.zero_volatility_underlier")
+
+
 def drv_witness(ctx, k, rng):
     """Fixed witness of the known finding lookback_delta.nan_at_zero_maturity_or_volatility."""
     if k == 0:
@@ -339,4 +388,5 @@ DRIVERS = [
     ("boundary", 300, 20000, drv_boundary),
     ("reject", 40, 1500, drv_reject),
     ("hedger", 80, 2500, drv_hedger),
+    ("zero_vol", 8, 8, drv_zero_vol),
 ]
